@@ -198,6 +198,8 @@ def c17f(ctx, tu):
             t = f["t"]
             if f["n"] == "t":
                 continue   # the tracer it reports to (a borrow for the duration of the call)
+            if t.replace(" ", "") in ("constchar*", "charconst*"):
+                continue   # string literals / the expectation's text: static or expectation-owned storage
             if t.endswith("&") or t.endswith("*") or "shared_ptr" in t:
                 bad = "member %s of the trace agent has type %s: the record of one call is not owned by that call's agent" % (f["n"], t)
         ctx.ob("C17.f", AG + " owns its record", bad is None, pattern=short_loc(c.get("loc", "")), unit=tu.name,
